@@ -151,9 +151,9 @@ PRead == /\ pst \in {"wait", "copy"} /\ uwire # <<>>
                       /\ uconn' = IF sc.fr = "eof" THEN "byup" ELSE uconn
                  [] pst = "copy" /\ x \in {CutM, RstM} ->    \* failure in the body: abort, never a clean end
                       /\ pst' = "aborted" /\ phdr' = 0 /\ pbuf' = <<>>
-                      /\ \E keep \in {0, Len(pbuf)} :         \* what was buffered may or may not still go out
+                      /\ \E keep \in {0, Len(pbuf)}, hk \in BOOLEAN :   \* what was buffered (header, data) may or may not still go out
                            cwire' = IF cgone THEN <<>>
-                                    ELSE cwire \o (IF phdr # 0 /\ (keep > 0 \/ ~HoldHeader) THEN <<HdrM(phdr)>> ELSE <<>>)
+                                    ELSE cwire \o (IF phdr # 0 /\ (keep > 0 \/ hk) THEN <<HdrM(phdr)>> ELSE <<>>)
                                                \o SubSeq(pbuf, 1, keep)
                                                \o <<IF ForgeEnd THEN EndM ELSE AbortM>>
                       /\ uconn' = "byup"
